@@ -89,7 +89,7 @@ pub fn stage_stream(wire: &Wire, msgs: &[(Vec<u8>, Vec<OwnedFd>)], cuts: &[usize
                     continue;
                 }
             }
-            w.staged.push_back(crate::harness::wire::Chunk { bytes: chunk, fds: if k == 0 { fds_opt.take().unwrap_or_default() } else { vec![] } });
+            w.staged.push_back(crate::harness::wire::Chunk { bytes: chunk, fds: if k == 0 { fds_opt.take().unwrap_or_default() } else { vec![] }, fd_offset: 0 });
         }
         drop(w);
         offset += bytes.len();
@@ -139,6 +139,140 @@ pub fn run_case(seed_rng: &mut Rng, sent: &[(Vec<u8>, Vec<OwnedFd>)], cuts: &[us
     let quiescent = sched.run_to_quiescence_while(move || w3.io_progress());
     let fp = sched.fingerprint();
     let notes = format!("steps={} ex={} net={} recv_calls={} trace={}", sched.steps, sched.ex_ticks, sched.net_events, wire.lock().recv_calls, sched.trace_string());
+    drop(sched);
+    drop(conn);
+    if !quiescent {
+        return Err(format!("step bound hit: {notes}"));
+    }
+    let g = std::mem::take(&mut *got.borrow_mut());
+    let e = end.borrow_mut().take();
+    Ok((g, e, fp, notes))
+}
+
+/// Like `run_case`, but the connection performs the real client handshake and the read that carries the last handshake
+/// line also carries the first `leftover` bytes of the message stream (the hand-off from the handshake buffer to the
+/// socket reader); the rest of the stream is cut at `cuts` (absolute stream offsets).
+pub fn run_leftover_case(seed_rng: &mut Rng, sent: &[(Vec<u8>, Vec<OwnedFd>)], leftover: usize, cuts: &[usize], bias: (u64, u64, u64), handshake_chunks: &[usize]) -> Result<(Vec<Got>, Option<String>, u64, String), String> {
+    let wire = Wire::new(seed_rng.next_u64());
+    let mut sched = Sched::new(Rng::new(seed_rng.next_u64()));
+    sched.w_ex = bias.0;
+    sched.w_h = bias.1;
+    sched.w_net = bias.2;
+    let hs = format!("OK {GUID}\r\nAGREE_UNIX_FD\r\n").into_bytes();
+    wire.stage(&hs, vec![], handshake_chunks);
+    // the whole stream as one byte string with the fds of each message at its first byte
+    let mut stream: Vec<u8> = Vec::new();
+    let mut fd_at: Vec<(usize, Vec<OwnedFd>)> = Vec::new();
+    for (b, f) in sent {
+        if !f.is_empty() {
+            fd_at.push((stream.len(), f.iter().map(|x| x.as_fd().try_clone_to_owned().unwrap()).collect()));
+        }
+        stream.extend_from_slice(b);
+    }
+    let mut cuts: Vec<usize> = cuts.iter().copied().filter(|c| *c > leftover && *c < stream.len()).collect();
+    // as the kernel does, a read never continues past a message that carried fds, and one read carries one fd group
+    let mut bounds: Vec<usize> = Vec::new();
+    let mut off = 0;
+    for (b, f) in sent {
+        if !f.is_empty() {
+            bounds.push(off);
+            bounds.push(off + b.len());
+        }
+        off += b.len();
+    }
+    // the leftover itself may not run past the end of the first fd-carrying message it touches
+    let mut leftover = leftover.min(stream.len());
+    for w in bounds.chunks(2) {
+        if leftover > w[1] && leftover > w[0] {
+            leftover = w[1];
+            break;
+        }
+    }
+    for b in &bounds {
+        if *b > leftover && *b < stream.len() {
+            cuts.push(*b);
+        }
+    }
+    cuts.sort();
+    cuts.dedup();
+    {
+        let mut w = wire.lock();
+        // the last handshake chunk also carries the first `leftover` stream bytes
+        let idx_leftover = w.staged.len() - 1;
+        let hs_len = w.staged[idx_leftover].bytes.len();
+        w.staged[idx_leftover].bytes.extend_from_slice(&stream[..leftover]);
+        // (stream offset at which the chunk's stream bytes start, offset of those bytes inside the chunk, chunk index)
+        let mut chunk_starts: Vec<(usize, usize, usize)> = vec![(0, hs_len, idx_leftover)];
+        let mut start = leftover;
+        for c in cuts.iter().chain(std::iter::once(&stream.len())) {
+            if *c > start {
+                w.staged.push_back(crate::harness::wire::Chunk { bytes: stream[start..*c].to_vec(), fds: vec![], fd_offset: 0 });
+                chunk_starts.push((start, 0, w.staged.len() - 1));
+                start = *c;
+            }
+        }
+        // attach each fd group to the chunk that contains its message's first byte
+        for (at, fds) in fd_at {
+            let mut target = chunk_starts[0];
+            for cs in &chunk_starts {
+                if cs.0 <= at && (cs.2 != idx_leftover || at < leftover) {
+                    target = *cs;
+                }
+            }
+            let c = &mut w.staged[target.2];
+            if !c.fds.is_empty() {
+                return Err("harness: two fd groups in one read".into());
+            }
+            c.fd_offset = target.1 + (at - target.0);
+            c.fds = fds;
+        }
+        w.eof_at_end = true;
+    }
+    let out: Slot<Result<zbus::Connection, String>> = slot();
+    let o2 = out.clone();
+    let sock = wire.socket();
+    let build = sched.spawn("client-build", async move {
+        let r = zbus::connection::Builder::socket(sock).p2p().internal_executor(false).build().await;
+        *o2.borrow_mut() = Some(r.map_err(|e| e.to_string()));
+    });
+    let w2 = wire.clone();
+    sched.add_net(Box::new(move || w2.release_one()));
+    let w3 = wire.clone();
+    sched.add_net(Box::new(move || w3.unblock_write()));
+    sched.run_until_done(build);
+    let conn = match out.borrow_mut().take() {
+        Some(Ok(c)) => c,
+        Some(Err(e)) => return Err(format!("handshake failed: {e}")),
+        None => return Err("handshake pending at quiescence".into()),
+    };
+    // subscribe before any further scheduling so that leftover messages have a receiver
+    let got: Rc<RefCell<Vec<Got>>> = Rc::new(RefCell::new(Vec::new()));
+    let end: Rc<RefCell<Option<String>>> = Rc::new(RefCell::new(None));
+    let mut mstream = MessageStream::from(&conn);
+    sched.add_executor(conn.executor().clone());
+    let (g2, e2) = (got.clone(), end.clone());
+    sched.spawn("consumer", async move {
+        loop {
+            match mstream.next().await {
+                Some(Ok(m)) => {
+                    let d = m.data();
+                    g2.borrow_mut().push(Got { bytes: d.bytes().to_vec(), fd_ids: d.fds().iter().map(|f| dev_ino(f.as_fd())).collect(), pos: seq_of(&m) });
+                }
+                Some(Err(e)) => {
+                    *e2.borrow_mut() = Some(e.to_string());
+                    break;
+                }
+                None => {
+                    *e2.borrow_mut() = Some("<end of stream>".into());
+                    break;
+                }
+            }
+        }
+    });
+    let w4 = wire.clone();
+    let quiescent = sched.run_to_quiescence_while(move || w4.io_progress());
+    let fp = sched.fingerprint();
+    let notes = format!("leftover={leftover} steps={} recv_calls={} trace={}", sched.steps, wire.lock().recv_calls, sched.trace_string());
     drop(sched);
     drop(conn);
     if !quiescent {
@@ -317,6 +451,52 @@ pub fn run(ctx: &mut Ctx) {
         });
         if j < 2 {
             ctx.sample(json!({"messages": nm, "bytes": total, "plan": plan, "cuts": cuts.len(), "first_message": vref::hex(&sent_raw[0].0[..sent_raw[0].0.len().min(64)])}));
+        }
+    }
+    // (D) hand-off from the handshake: EVERY leftover length 0..=len(m1)+len(m2)+20 of a 3-message stream (the third
+    // carries an fd), the handshake lines themselves whole / byte-wise / randomly chunked; plus random streams
+    {
+        let m1 = Msg::signal(1, "/a", "a.b", "S").marshal();
+        let m2 = Msg::method_return(2, 9).with_body(vec![Val::Y(7)]).marshal();
+        let m3 = Msg::signal(3, "/", "x.y", "T").with_body(vec![Val::H(0)]).marshal();
+        let max_l = m1.len() + m2.len() + 20;
+        let mut kd = 0u64;
+        for l in 0..=max_l {
+            for variant in 0..3u64 {
+                kd += 1;
+                let idx = 5_000_000_000 + kd;
+                if !ctx.mine(kd) || !ctx.want(idx) {
+                    continue;
+                }
+                let sent_raw: Vec<(Vec<u8>, Vec<OwnedFd>)> = vec![(m1.clone(), vec![]), (m2.clone(), vec![]), (m3.clone(), vec![files[0].as_fd().try_clone_to_owned().unwrap()])];
+                let sent: Vec<Sent> = sent_raw.iter().map(|(b, f)| Sent { bytes: b.clone(), fd_ids: f.iter().map(|x| dev_ino(x.as_fd())).collect() }).collect();
+                let mut rng = ctx.rng(idx);
+                let hs_chunks: Vec<usize> = match variant {
+                    0 => vec![],
+                    1 => vec![1],
+                    _ => vec![1 + rng.usize_below(30), 1 + rng.usize_below(10)],
+                };
+                let total = m1.len() + m2.len() + m3.len();
+                let cuts: Vec<usize> = if variant == 0 { vec![] } else { (0..rng.usize_below(6)).map(|_| 1 + rng.usize_below(total - 1)).collect() };
+                let bias = *rng.pick(&[(4u64, 3u64, 2u64), (1, 1, 8), (8, 1, 1), (1, 8, 1)]);
+                ctx.guarded(idx, &format!("leftover {l}"), || json!({"leftover": l}), |ctx| {
+                    ctx.count("evaluations", 1);
+                    ctx.count("class:handshake-leftover", 1);
+                    if l > 0 && l < 16 {
+                        ctx.count("class:leftover-inside-first-fixed-header", 1);
+                    }
+                    match run_leftover_case(&mut rng, &sent_raw, l, &cuts, bias, &hs_chunks) {
+                        Ok((got, end, fp, notes)) => {
+                            ctx.distinct(fp ^ l as u64);
+                            compare(ctx, idx, &sent, &got, &end, "handshake-leftover", json!({"leftover": l, "cuts": cuts, "notes": notes}));
+                        }
+                        Err(e) => ctx.finding(idx, "harness-or-hang", "-", "handshake-leftover", json!({"error": e, "leftover": l})),
+                    }
+                });
+            }
+        }
+        if ctx.args.shard == 0 {
+            ctx.count("leftover_lengths_enumerated", max_l as u64 + 1);
         }
     }
     // (C) a header declaring more than 128 MiB must be refused without reading the message
